@@ -5,7 +5,8 @@ patch="$1"; shift
 cd /verif || exit 2
 if ! git -C /repo diff --quiet; then echo "/repo has uncommitted changes"; exit 2; fi
 git -C /repo apply "$patch" || { echo "patch does not apply"; exit 2; }
-trap 'git -C /repo checkout -- .' EXIT
+rm -rf /tmp/evidence_backup && cp -r /verif/evidence /tmp/evidence_backup
+trap 'git -C /repo checkout -- .; rm -rf /verif/evidence && mv /tmp/evidence_backup /verif/evidence' EXIT
 for id in "$@"; do
   out=$(./check "$id" quick 2>&1); rc=$?
   echo "== $id rc=$rc"; echo "$out" | grep -E "VIOLATION|KNOWN-FINDING|failed obligation|^  [a-z]|quick:" | cut -c1-300 | head -8
